@@ -41,7 +41,7 @@ func c01Run(c c01Case) Verdict {
 		DefaultData: &harness.DataPlan{Read: harness.ReadPlan{Sizes: c.Reads, Limit: -1}, Honest: true}}
 	r := harness.NewRig(cfg, script)
 	w, _ := r.Dial()
-	if e := openData(w, cfg.LMTP, 1); e != "" {
+	if _, e := openData(w, cfg.LMTP, 1); e != "" {
 		w.Finish()
 		return Verdict{Inconclusive: e}
 	}
